@@ -12,7 +12,12 @@
 #include "detsched.h"
 #include "detsched_internal.h"
 
-extern void __gcov_dump(void) __attribute__((weak));
+#ifdef SCHED_GCOV                       /* --coverage builds: _exit skips the atexit flush of the counters */
+extern void __gcov_dump(void);
+#define SCHED_GCOV_DUMP() __gcov_dump()
+#else
+#define SCHED_GCOV_DUMP() ((void)0)
+#endif
 
 typedef struct xchoice { char tok[16]; char a[24]; char b[24]; } xchoice;
 
@@ -95,7 +100,7 @@ static void run_child(sched_run_fn run, void *arg, const sched_config *cfg, sche
         run(arg);
         sched_end();
         fflush(NULL);
-        if (__gcov_dump) __gcov_dump();      /* --coverage builds: _exit skips the atexit flush */
+        SCHED_GCOV_DUMP();
         _exit(0);
     }
     close(rp[1]); close(ep[1]);
